@@ -171,12 +171,15 @@ def main(run):
     for rows, cols in shapes:
         for nan in (True, False):
             run.prove(f"roundtrip[shape={rows}x{cols},nan={nan}]", SS.sc_output_roundtrip, {"rows": rows, "cols": cols, "nan": nan}, pkg=pkg)
+    run.prove("save_twice.other_process_in_between", SS.sc_save_twice, {"rows": 1, "cols": 2}, pkg=pkg)
     for rows, cols in shapes[:3]:
         run.prove(f"pipeline[shape={rows}x{cols}]", SS.sc_save_pipeline, {"rows": rows, "cols": cols}, pkg=pkg)
     for rows in (1, 2, 3):
         run.prove(f"roundtrip.3d[steps={rows}]", SS.sc_output_roundtrip, {"rows": rows, "cols": 2, "three_d": True}, pkg=pkg)
     run.discharge()
     dataflow_check(run, pkg)
+    run.bounded_run("native.save_twice", SS.sc_save_twice, {"rows": 2, "cols": 3}, [{}], tol=0.0,
+                    bound="real files: save, a fork()ed process saves, save again; then the file is moved away and a further save follows")
     e, f = native_roundtrip(run, 15 if run.tier == "quick" else 150)
     run.native_evals += e
     run.native_distinct.update(("rt", j) for j in range(e))
